@@ -7,17 +7,19 @@ W=/tmp/mut/verify
 [ -d "$W" ] || git -C /repo worktree add -q "$W" HEAD
 cd "$W" && git checkout -q --detach "$(git -C /repo rev-parse HEAD)" && git checkout -q -- . && git clean -fdq tera/tests tera-contrib/tests tera/src 2>/dev/null
 export CARGO_TARGET_DIR=/tmp/mut/verify-target CARGO_NET_OFFLINE=true
-demo="tera/tests/demo_${sid}.rs"
+pkg=tera; feat=""
+if head -1 "$out/demo_$k.rs" | grep -q 'place: tera-contrib/tests'; then pkg=tera-contrib; feat="--all-features"; fi
+demo="$pkg/tests/demo_${sid}.rs"
 cp "$out/demo_$k.rs" "$demo"
 log=/tmp/mut/verify_$sid.log; : > $log
 echo "## demo on unchanged HEAD" >> $log
-timeout 1500 cargo test --offline -p tera --test "demo_${sid}" >> $log 2>&1; base=$?
+timeout 1500 cargo test --offline -p $pkg $feat --test "demo_${sid}" >> $log 2>&1; base=$?
 if ! git apply --check "$out/patch_$k.diff" 2>>$log; then echo "$sid: patch does not apply"; exit 1; fi
 git apply "$out/patch_$k.diff"
 echo "## 84 tests with patch" >> $log
 timeout 1500 cargo nextest run --workspace --no-fail-fast --offline -E 'not binary(/demo_/)' >> $log 2>&1; suite=$?
 echo "## demo with patch" >> $log
-timeout 1500 cargo test --offline -p tera --test "demo_${sid}" >> $log 2>&1; mut=$?
+timeout 1500 cargo test --offline -p $pkg $feat --test "demo_${sid}" >> $log 2>&1; mut=$?
 git checkout -q -- . ; rm -f "$demo"; git clean -fdq tera/tests tera-contrib/tests tera/src 2>/dev/null
 echo "$sid: demo@HEAD rc=$base (want 0) ; suite@patch rc=$suite (want 0) ; demo@patch rc=$mut (want !=0)"
 if [ $base -eq 0 ] && [ $suite -eq 0 ] && [ $mut -ne 0 ]; then
